@@ -13,9 +13,9 @@ Proof. unfold Q2R. cbn [Qnum Qden]. lra. Qed.
 Lemma apod_as_config_spec a : apod_as_config R_ops a = apod_spec a.
 Proof. destruct a; cbn [apod_as_config apod_spec]; try reflexivity. rewrite u_micro_R. reflexivity. Qed.
 
-Theorem as_config_matches_spec U s : as_config R_ops U s = as_config_spec U s.
+Theorem as_config_matches_spec U s : as_config R_ops U s = as_config_spec export_rounds_idler_waist_position U s.
 Proof.
-  unfold as_config, as_config_spec, crystal_as_config, poling_as_config, beam_spec, celsius_of_kelvin.
+  unfold as_config, as_config_spec, crystal_as_config, poling_as_config, beam_spec, celsius_of_kelvin, export_rounds_idler_waist_position.
   rewrite !sigfigs_R, ?u_deg_R, ?u_micro_R, ?u_nano_R, ?u_pico_R.
   cbn [ndiv nsub nQ R_ops]. rewrite q_kelvin.
   destruct (s_pp s) as [| period sg a].
@@ -26,6 +26,8 @@ Qed.
 Definition close4 (x y : R) : Prop := Rabs (x - y) <= / 20000.
 Lemma close4_round x : close4 (round4 x) x.
 Proof. apply round4_err. Qed.
+Lemma close4_if (b : bool) x : close4 (if b then round4 x else x) x.
+Proof. destruct b; [apply round4_err | unfold close4; replace (x - x) with 0 by ring; rewrite Rabs_R0; lra]. Qed.
 Lemma close4_refl x : close4 x x.
 Proof. unfold close4. replace (x - x) with 0 by ring. rewrite Rabs_R0. lra. Qed.
 
@@ -67,6 +69,7 @@ Proof.
   | |- _ /\ _ => split
   | |- close4 (round4 _) _ => apply close4_round
   | |- close4 ?x ?x => apply close4_refl
+  | |- close4 (if _ then round4 ?x else ?x) ?x => apply close4_if
   | |- ?x = ?x => reflexivity
   | |- exists t, Param _ = Param t /\ _ => eexists; split; [reflexivity |]
   | |- exists t, Some _ = Some t /\ _ => eexists; split; [reflexivity |]
